@@ -434,8 +434,10 @@ pub fn plan(tier: &str) -> Plan {
                             (Variant::Linked, Cause::PreStartErr) => true,
                             (Variant::LinkedInstant, Cause::PreStartPanic) => matches!(effect, Effect::JoinGroups | Effect::QueuedCall | Effect::LinkOther),
                             (Variant::Plain, Cause::KilledDuringStart) => matches!(effect, Effect::Monitors | Effect::SpawnChild | Effect::QueuedCall),
-                            (Variant::Linked, Cause::SupervisorDraining) => matches!(effect, Effect::None | Effect::JoinGroups),
-                            (Variant::LinkedInstant, Cause::SupervisorStopping) => matches!(effect, Effect::Casts),
+                            (Variant::Linked, Cause::SupervisorDraining) => matches!(effect, Effect::None | Effect::JoinGroups | Effect::LinkOther),
+                            (Variant::Linked, Cause::SupervisorStopping) => matches!(effect, Effect::LinkOther | Effect::Monitors),
+                            (Variant::LinkedInstant, Cause::SupervisorStopping) => matches!(effect, Effect::Casts | Effect::LinkOther),
+                            (Variant::LinkedInstant, Cause::SupervisorDraining) => matches!(effect, Effect::LinkOther | Effect::SpawnChild),
                             (Variant::Plain, Cause::NameTaken) => matches!(effect, Effect::None),
                             (Variant::Instant, Cause::NameTaken) => matches!(effect, Effect::None),
                             _ => false,
